@@ -128,7 +128,13 @@ type GraphCase struct {
 var archPkgs = []string{"a", "b", "a.b", "ab", "c", "bc"}
 
 func genGraph(t *rapid.T) GraphCase {
-	m := mgen.Gen(t, mgen.Options{MaxClasses: 4, MaxMethods: 4, MaxCalls: 3})
+	opts := mgen.Options{MaxClasses: 4, MaxMethods: 4, MaxCalls: 3}
+	if rapid.IntRange(0, 3).Draw(t, "bigModel") == 3 {
+		// more than eight types: Go iterates such a map in any order, not only in rotations
+		opts.MaxClasses = 11
+	}
+	m := mgen.Gen(t, opts)
+	collide(t, &m)
 	// extends / implements / field references for the architecture graph, over package
 	// names whose concatenations coincide (a+bc = ab+c)
 	for i := range m.Classes {
@@ -169,6 +175,71 @@ func genGraph(t *rapid.T) GraphCase {
 	return c
 }
 
+// collide makes names compete: a type takes the simple name of a type of another package (every
+// reference follows), a method takes the name of another method of its type (an overload; calls
+// to either now name both).
+func collide(t *rapid.T, m *mgen.Model) {
+	retarget := func(pkg, node, fn string, to func(c *mgen.Call)) {
+		fix := func(c *mgen.Call) {
+			if c.Pkg == pkg && c.Node == node && (fn == "" || c.Func == fn) {
+				to(c)
+			}
+		}
+		for i := range m.Classes {
+			for k := range m.Classes[i].FieldCalls {
+				fix(&m.Classes[i].FieldCalls[k])
+			}
+			for j := range m.Classes[i].Methods {
+				for k := range m.Classes[i].Methods[j].Calls {
+					fix(&m.Classes[i].Methods[j].Calls[k])
+				}
+			}
+		}
+	}
+	if len(m.Classes) >= 2 && rapid.IntRange(0, 2).Draw(t, "sharedSimpleName") > 0 {
+		j := rapid.IntRange(1, len(m.Classes)-1).Draw(t, "renamedType")
+		i := rapid.IntRange(0, j-1).Draw(t, "nameOfType")
+		a, b := m.Classes[i], &m.Classes[j]
+		if a.Pkg != b.Pkg {
+			free := true
+			for _, c := range m.Classes {
+				if c.Pkg == b.Pkg && c.Name == a.Name {
+					free = false
+				}
+			}
+			if free {
+				old := b.Name
+				retarget(b.Pkg, old, "", func(c *mgen.Call) { c.Node = a.Name })
+				for k := range b.Methods {
+					if b.Methods[k].Ctor {
+						b.Methods[k].Name = a.Name
+					}
+				}
+				b.Name = a.Name
+			}
+		}
+	}
+	if rapid.IntRange(0, 2).Draw(t, "overloads") > 0 {
+		for i := range m.Classes {
+			c := &m.Classes[i]
+			var plain []int
+			for k, mm := range c.Methods {
+				if !mm.Ctor {
+					plain = append(plain, k)
+				}
+			}
+			if len(plain) < 2 || rapid.Bool().Draw(t, "noOverloadHere") {
+				continue
+			}
+			k := plain[rapid.IntRange(1, len(plain)-1).Draw(t, "overloadOf")]
+			first := c.Methods[plain[0]].Name
+			old := c.Methods[k].Name
+			retarget(c.Pkg, c.Name, old, func(cc *mgen.Call) { cc.Func = first })
+			c.Methods[k].Name = first
+		}
+	}
+}
+
 func checkGraph(c GraphCase) pbt.Verdict {
 	v := repeat("graphs", reps(c.Reps), func(rep int) []report {
 		resetAll()
@@ -198,6 +269,26 @@ func checkGraph(c GraphCase) pbt.Verdict {
 	})
 	if len(c.Model.Classes) >= 2 {
 		v.Classes = append(v.Classes, "graphs/two_or_more_types")
+	}
+	if len(c.Model.Classes) > 8 {
+		v.Classes = append(v.Classes, "graphs/more_than_eight_types")
+	}
+	simple, overload := map[string]bool{}, false
+	for _, cl := range c.Model.Classes {
+		if simple[cl.Name] {
+			v.Classes = append(v.Classes, "graphs/simple_name_in_two_packages")
+		}
+		simple[cl.Name] = true
+		seen := map[string]bool{}
+		for _, mm := range cl.Methods {
+			if seen[mm.Name] {
+				overload = true
+			}
+			seen[mm.Name] = true
+		}
+	}
+	if overload {
+		v.Classes = append(v.Classes, "graphs/overloads")
 	}
 	return v
 }
